@@ -3,19 +3,21 @@
  "name": "pop_populate_dispatch",
  "props": ["C18"],
  "level": "U/iter",
- "tier": "wip",
+ "tier": "thorough",
+ "timeout": 900,
  "harness": "h_populate",
  "includes": ["misc"],
  "loop_contracts": true,
  "replace": ["is_hardlink", "add_link", "path_append", "do_mknod_internal", "do_symlink_internal", "do_write_internal", "do_mkdir_internal", "set_inode_extra", "set_inode_xattr"],
  "unwind": 13,
- "unwind_reason": "the readdir loop and the clean-up loop of __populate_fs are cut by their in-place loop contracts (named anchors VERIF_INV_POPULATE_FS_ENTRIES / _CLEANUP, hooks-pending/pop2.diff); strcmp (CBMC's libc model) runs over the 12-byte entry name against \".\", \"..\", \"lost+found\" (at most 11 characters); DFCC library loops; unwinding assertions on",
+ "cbmc_flags": ["--object-bits", "10"],
+ "unwind_reason": "the readdir loop and the clean-up loop of __populate_fs are cut by their in-place loop contracts (named anchors VERIF_INV_POPULATE_FS_ENTRIES / _CLEANUP, hooks-pending/pop2.diff); the bound serves the DFCC library loops (unwinding assertions on)",
  "functions": ["misc/create_inode.c:__populate_fs"],
  "assumes": ["NEEDS the hooks of hooks-pending/pop2.diff (named loop anchors in __populate_fs)",
              "no contract enforced on __populate_fs (harness CHECKs + protocol monitor); the creators and helpers of the same file (is_hardlink, add_link, path_append, do_mknod_internal, do_symlink_internal, do_write_internal, do_mkdir_internal, set_inode_extra, set_inode_xattr) are REPLACED by contracts whose PRECONDITIONS are the dispatch statement (checked at every call site) and whose results are arbitrary; what they do: units tools/add_link, tools/do_symlink_internal, tools/set_inode_xattr, pop_do_write_internal, pop_do_mkdir_internal_rel, pop_do_mknod_internal",
              "THE RECURSIVE CALL is cut by a preprocessor rename (the definition becomes __populate_fs_def, every call __populate_fs_rec): __populate_fs_rec is a stub that checks its arguments and protocol position, answers an arbitrary result, may record further hard-link groups (count grows within size) and leaves the path buffer as it was - the statement about one directory level is the induction step for the tree",
-             "host calls are stubs delivering ARBITRARY results: chdir (0 / -1 + errno), scandir (-1 + errno or any number of entries 0..2^20; every entry carries the same arbitrary name of at most 11 characters - entries are told apart by the independent lstat results), lstat (-1 + errno, or arbitrary mode, nlink, dev, ino, size; st_rdev below 2^32 as Linux delivers it), readlink (-1 + errno or any count 0..buffer size), malloc (NULL or a buffer; symlink targets at most PATH_MAX - 1 = 4095 bytes), realloc (NULL or growth in place), free (no-op); a failing host call sets errno to a harness-chosen positive code",
-             "fs_callbacks == NULL (mke2fs passes NULL unless built for Android's fs_config)",
+             "host calls are stubs delivering ARBITRARY results: chdir (0 / -1 + errno), scandir (-1 + errno or any number of entries 0..2^20; every entry carries the same arbitrary name of at most 11 characters - entries are told apart by the independent lstat results), lstat (-1 + errno, or arbitrary mode, nlink, dev, ino, size; st_rdev below 2^32 as Linux delivers it), readlink (-1 + errno or any count 0..buffer size), malloc (NULL or a buffer), realloc (NULL or growth in place), free (no-op); a failing host call sets errno to a harness-chosen positive code",
+             "model buffers are small, which the dispatch does not depend on: symlink targets at most 63 bytes (st_size <= 63), the target path buffer 64 bytes, the hard-link table at most 16 groups", "strcmp (three calls against the literals \".\", \"..\", \"lost+found\") is replaced by a loop-free equivalent in the unit; lstat delivers one of the seven Linux file types (for any other value the code prints 'ignoring entry' and then fails in the final lookup)", "fs_callbacks == NULL (mke2fs passes NULL unless built for Android's fs_config)",
              "U/iter: the statement is proved for one iteration starting in an arbitrary state that satisfies the proved loop invariant (no entry half-done, no error so far, every non-dot entry so far was lstat'ed and completed, hard-link table within its capacity, the last recorded hard-link triple is the one of the last saved entry)",
              "FAILS on the pinned tree: 'no failure is swallowed: a readlink result that fills the whole buffer (possibly truncated) / a failed malloc ends the population with an error' - FINDING findings/C18_pop_symlink_error_swallowed; green with its proposed-fix.patch"],
  "native": false
@@ -26,13 +28,15 @@
  "name": "pop_populate_dispatch_ok",
  "props": ["C18"],
  "level": "U/iter",
- "tier": "wip",
- "tier_after_hooks": "quick",
+ "tier": "thorough",
+ "tier_after_hooks": "thorough",
+ "timeout": 900,
  "harness": "h_populate_ok",
  "includes": ["misc"],
  "loop_contracts": true,
  "replace": ["is_hardlink", "add_link", "path_append", "do_mknod_internal", "do_symlink_internal", "do_write_internal", "do_mkdir_internal", "set_inode_extra", "set_inode_xattr"],
  "unwind": 13,
+ "cbmc_flags": ["--object-bits", "10"],
  "unwind_reason": "as pop_populate_dispatch",
  "functions": ["misc/create_inode.c:__populate_fs"],
  "assumes": ["as pop_populate_dispatch (NEEDS hooks-pending/pop2.diff), restricted to the inputs on which the pinned tree is right: malloc of the symlink buffer succeeds and readlink never fills the whole buffer (finding C18_pop_symlink_error_swallowed excluded)"],
@@ -137,8 +141,9 @@ static const char g_srcdir[] = "srcdir";
 static int g_name_is_dot, g_name_is_lnf;
 static unsigned int g_frees, g_chdirs;
 
-#define PATHCAP 4096ul
-#define LNCAP 4096
+#define PATHCAP 64ul
+#define HCAP 16		/* capacity of the hard-link table object (in-place realloc model) */
+#define LNCAP 64
 #define EXPECT(c) do { if (!(c)) g_bad = 1; } while (0)
 #define NOTE_ERR(e) do { if (g_err == 0) g_err = (e); } while (0)
 #define DRAWN(arr) (IN.arr[(g_draw++) & 3])
@@ -152,14 +157,14 @@ static unsigned int g_frees, g_chdirs;
 #define VERIF_INV_POPULATE_FS_ENTRIES \
 	__CPROVER_assigns(i, name, st, save_inode, ino, retval, hdlink, cur_dir_path_len, \
 			  g_st, g_draw, g_err, g_trunc, g_nomem, g_bad, g_lstats, g_done, g_name, g_stp, g_mode, g_rdev, g_nlink, g_dev, g_sino, g_size, \
-			  g_hl_seen, g_hl_idx, g_rl, g_lnbuf, g_dirino, g_dst, g_saved, g_sv_dev, g_sv_ino, g_sv_dst, g_frees, g_chdirs, errno, \
+			  g_hl_seen, g_hl_idx, g_rl, g_lnbuf, g_dirino, g_dst, g_saved, g_sv_dev, g_sv_ino, g_sv_dst, g_frees, g_chdirs, \
 			  hdlinks->count, hdlinks->size, hdlinks->hdl, __CPROVER_object_whole(G_HDL), \
 			  target->path_len, target->path_max_len, target->path, __CPROVER_object_whole(G_PATH), __CPROVER_object_whole(G_LNPOOL)) \
 	__CPROVER_loop_invariant(0 <= i && i <= num_dents) \
-	__CPROVER_loop_invariant(retval == 0 && g_st == 0 && g_err == 0 && g_trunc == 0 && g_nomem == 0) \
+	__CPROVER_loop_invariant(retval == 0 && g_st == 0 && g_err == 0 && g_trunc == 0 && g_nomem == 0 && g_bad == 0) \
 	__CPROVER_loop_invariant(g_lstats == (g_name_is_dot ? 0ul : (unsigned long)i) && g_done == g_lstats) \
 	__CPROVER_loop_invariant(hdlinks == &HL && hdlinks->hdl == G_HDL && 0 <= hdlinks->count && hdlinks->count <= hdlinks->size && \
-				 hdlinks->size <= IN.hsize + 4 * (int)(g_done & 0xfffff) && hdlinks->size <= (1 << 21)) \
+				 hdlinks->size <= HCAP) \
 	__CPROVER_loop_invariant(target == &TGT && target->path == G_PATH && target->path_len < PATHCAP) \
 	__CPROVER_loop_invariant(g_saved == 0 || (hdlinks->count >= 1 && G_HDL[hdlinks->count - 1].src_dev == g_sv_dev && \
 						  G_HDL[hdlinks->count - 1].src_ino == g_sv_ino && G_HDL[hdlinks->count - 1].dst_ino == g_sv_dst)) \
@@ -184,7 +189,6 @@ int chdir(const char *path)
 		g_st = 5;
 	}
 	if (f) {
-		errno = IN.err;
 		NOTE_ERR(IN.err);
 		return -1;
 	}
@@ -194,7 +198,6 @@ int verif_scandir(const char *dir, struct dirent ***namelist)
 {
 	EXPECT(dir[0] == '.' && dir[1] == 0 && g_chdirs == 1);
 	if (IN.num_dents < 0) {
-		errno = IN.err;
 		NOTE_ERR(IN.err);
 		return -1;
 	}
@@ -209,7 +212,6 @@ int lstat(const char *path, struct stat *buf)
 	CHECK(path == G_DE.d_name && !g_name_is_dot, "lstat of the entry's name; never of \".\" or \"..\"");
 	g_lstats++;
 	if (s.fail) {
-		errno = IN.err;
 		NOTE_ERR(IN.err);
 		return -1;
 	}
@@ -224,11 +226,13 @@ int lstat(const char *path, struct stat *buf)
 void *verif_malloc(size_t n)
 {
 	CHECK(MAY_CREATE && S_ISLNK(g_mode) && n == (size_t)g_size + 1, "the symlink buffer has st_size + 1 bytes");
+#if !defined(VERIF_UNIT_pop_populate_dispatch_ok)
 	if (DRAWN(nomem)) {
 		g_nomem = 1;
 		return 0;
 	}
-	__CPROVER_assume(n <= LNCAP);		/* PATH_MAX */
+#endif
+	__CPROVER_assume(n <= LNCAP);		/* model cap on the symlink length */
 	g_lnbuf = G_LNPOOL;
 	return G_LNPOOL;
 }
@@ -240,8 +244,22 @@ void *verif_realloc(void *p, size_t n)
 		NOTE_ERR(EXT2_ET_NO_MEMORY);
 		return 0;
 	}
+	__CPROVER_assume(HL.size + HDLINK_CNT <= HCAP);	/* the model's table object has room for HCAP entries */
 	return p;				/* growth in place: the object has room (see harness) */
 }
+/* strcmp against the three literals of __populate_fs, loop-free (a library loop inside the cut loop cannot pass DFCC's frame check) */
+static int g_cmp_dot, g_cmp_dotdot, g_cmp_lnf;
+int verif_strcmp(const char *a, const char *b)
+{
+	EXPECT(a == G_DE.d_name);
+	if (b[0] == '.' && b[1] == 0)
+		return g_cmp_dot;
+	if (b[0] == '.' && b[1] == '.' && b[2] == 0)
+		return g_cmp_dotdot;
+	EXPECT(b[0] == 'l' && b[1] == 'o' && b[2] == 's' && b[3] == 't' && b[4] == '+' && b[5] == 'f' && b[6] == 'o' && b[7] == 'u' && b[8] == 'n' && b[9] == 'd' && b[10] == 0);
+	return g_cmp_lnf;
+}
+#define strcmp(a, b) verif_strcmp(a, b)
 #define malloc(n) verif_malloc(n)
 #define free(p) verif_free(p)
 #define realloc(p, n) verif_realloc(p, n)
@@ -250,11 +268,13 @@ ssize_t readlink(const char *path, char *buf, size_t bufsiz)
 	long v = DRAWN(rl);
 	CHECK(g_st == 1 && S_ISLNK(g_mode) && path == g_name && buf == g_lnbuf && bufsiz == (size_t)g_size + 1, "readlink of this entry into the st_size + 1 buffer");
 	if (v < 0) {
-		errno = IN.err;
 		NOTE_ERR(IN.err);
 		return -1;
 	}
 	__CPROVER_assume((size_t)v <= bufsiz);
+#if defined(VERIF_UNIT_pop_populate_dispatch_ok)
+	__CPROVER_assume(v <= g_size);
+#endif
 	g_rl = v;
 	if (v > g_size)
 		g_trunc = 1;			/* the whole buffer is filled: the target may be longer */
@@ -352,6 +372,7 @@ static errcode_t set_inode_xattr(ext2_filsys fs, ext2_ino_t ino, const char *fil
 
 #include "misc/create_inode.c"
 #undef malloc
+#undef strcmp
 #undef free
 #undef realloc
 
@@ -359,36 +380,40 @@ static errcode_t set_inode_xattr(ext2_filsys fs, ext2_ino_t ino, const char *fil
 void *malloc(__CPROVER_size_t n) { return __CPROVER_allocate(n, 0); }
 #endif
 
-static void body(int ok)
+static void body(void)
 {
 	LOAD_IN();
 	int i;
 	memset(&FS, 0, sizeof(FS));
 	ASSUME(IN.err > 0);
 	ASSUME(IN.num_dents >= -1 && IN.num_dents <= (1 << 20));
-	ASSUME(IN.hsize >= 4 && IN.hsize <= (1 << 20) && IN.hcount >= 0 && IN.hcount <= IN.hsize);
+	ASSUME(IN.hsize >= 4 && IN.hsize <= HCAP && IN.hcount >= 0 && IN.hcount <= IN.hsize);
 	ASSUME(IN.plen < PATHCAP);
 	for (i = 0; i < 4; i++) {
-		ASSUME(IN.st[i].rdev == IN.st[i].rdev);
-		ASSUME(IN.st[i].size >= 0);
+		ASSUME(IN.st[i].size >= 0 && IN.st[i].size <= (1LL << 62));
+		/* Linux: lstat delivers one of the seven file types */
+		ASSUME(S_ISREG(IN.st[i].mode) || S_ISDIR(IN.st[i].mode) || S_ISLNK(IN.st[i].mode) || S_ISSPECIAL(IN.st[i].mode));
 		ASSUME(IN.r_namei[i] >= 0 && IN.r_rec[i] >= 0);
-		if (ok) {
-			ASSUME(IN.nomem[i] == 0);
-			ASSUME(IN.rl[i] < 0 || IN.rl[i] <= IN.st[0].size || 1);
-		}
 	}
 	/* the entry name: a C string of at most 11 characters */
 	memcpy(G_DE.d_name, IN.name, 12);
 	G_DE.d_name[11] = 0;
 	ASSUME(G_DE.d_name[0] != 0);
 	g_name_is_dot = G_DE.d_name[0] == '.' && (G_DE.d_name[1] == 0 || (G_DE.d_name[1] == '.' && G_DE.d_name[2] == 0));
-	g_name_is_lnf = memcmp(G_DE.d_name, "lost+found", 11) == 0;
+	{
+		const char *n = G_DE.d_name;
+		g_name_is_lnf = n[0] == 'l' && n[1] == 'o' && n[2] == 's' && n[3] == 't' && n[4] == '+' && n[5] == 'f' && n[6] == 'o' && n[7] == 'u' && n[8] == 'n' && n[9] == 'd' && n[10] == 0;
+		/* strcmp's answers for this name (only zero / non-zero is used by the code) */
+		g_cmp_dot = (n[0] == '.' && n[1] == 0) ? 0 : 1;
+		g_cmp_dotdot = (n[0] == '.' && n[1] == '.' && n[2] == 0) ? 0 : -1;
+		g_cmp_lnf = g_name_is_lnf ? 0 : 1;
+	}
 	/* every slot of the list points to the one entry object */
 	G_DENTS = malloc(sizeof(struct dirent *) * (IN.num_dents > 0 ? IN.num_dents : 1));
 	ASSUME(G_DENTS != 0);
 	__CPROVER_array_set(G_DENTS, &G_DE);
 	/* hard-link table: room for the growth of this level (in-place realloc model) */
-	G_HDL = malloc(sizeof(struct hdlink_s) * ((1 << 21) + 8));
+	G_HDL = malloc(sizeof(struct hdlink_s) * HCAP);
 	ASSUME(G_HDL != 0);
 	HL.count = IN.hcount; HL.size = IN.hsize; HL.hdl = G_HDL;
 	G_PATH = malloc(PATHCAP);
@@ -398,7 +423,7 @@ static void body(int ok)
 	g_st = 0; g_draw = 0; g_err = 0; g_trunc = g_nomem = g_bad = 0; g_lstats = g_done = 0;
 	g_name = 0; g_stp = 0; g_mode = 0; g_rdev = 0; g_nlink = g_dev = g_sino = 0; g_size = 0; g_hl_seen = 0; g_hl_idx = -1; g_rl = -1;
 	g_lnbuf = 0; g_dirino = g_dst = 0; g_saved = 0; g_sv_dev = g_sv_ino = 0; g_sv_dst = 0; g_frees = g_chdirs = 0;
-	errno = 0;
+	errno = IN.err;		/* a failing host call leaves this (fixed, positive) code: the stubs inside the cut loop do not write errno */
 
 	errcode_t r = __populate_fs_def(&FS, IN.parent, g_srcdir, IN.root, &HL, &TGT, 0);
 
@@ -415,5 +440,5 @@ static void body(int ok)
 		REACH("failure");
 	REACH("end");
 }
-void h_populate(void) { body(0); }
-void h_populate_ok(void) { body(1); }
+void h_populate(void) { body(); }
+void h_populate_ok(void) { body(); }
